@@ -62,6 +62,8 @@ pub fn run(ctx: &mut Ctx, replay: Option<&str>) {
     let mut lists_member_order = 0usize;
     let mut lists_decoys_last = 0usize;
     let mut lists_with_decoys = 0usize;
+    let mut lists_total_off = 0usize;
+    let mut lists_member_order_off = 0usize;
     for (on, off, run_on, run_off, i, vi) in &runs {
         cmp_issue(ctx, &on.issue, &run_on.issue, &resp[*i], true);
         cmp_issue(ctx, &off.issue, &run_off.issue, &resp[*i + 1], true);
@@ -155,6 +157,15 @@ pub fn run(ctx: &mut Ctx, replay: Option<&str>) {
                 }
             }
         }
+        // the same statistic for the decoy-free issuance (the rule is judged per decoy setting)
+        for (_, list, real_in_member_order) in &l_off.sd_lists {
+            if real_in_member_order.len() >= 2 {
+                lists_total_off += 1;
+                if list.iter().map(|s| s.as_str()).eq(real_in_member_order.iter().map(|s| s.as_str())) {
+                    lists_member_order_off += 1;
+                }
+            }
+        }
         if !problems.is_empty() {
             ctx.violation("oracle", "issue", &problems[0].clone(), case, json!({"payload_with_decoys": p_on.payload(), "payload_without": p_off.payload(), "problems": problems}), json!("decoys present, unique, well-formed, inert"));
             continue;
@@ -176,6 +187,14 @@ pub fn run(ctx: &mut Ctx, replay: Option<&str>) {
         }
     } else {
         ctx.notes.push(format!("order-leak rule not evaluated: only {} _sd lists with >= 2 real digests (needs 200)", lists_total));
+    }
+    ctx.count_n("decoys_off.sd_lists_with_2+_real_digests", lists_total_off);
+    ctx.count_n("decoys_off.sd_lists_in_member_order", lists_member_order_off);
+    if lists_total_off >= 200 {
+        ctx.oracle_checks += 1;
+        if lists_member_order_off == lists_total_off {
+            ctx.violation("oracle", "issue", "decoys off: every _sd list lists the digests in member order (order leak)", json!({"lists": lists_total_off}), json!({"in_member_order": lists_member_order_off}), json!("not all"));
+        }
     }
     if let Some(f) = flows.last() {
         ctx.sample(f.json());
